@@ -105,9 +105,12 @@ def expm_higham_2005(A):
     else:
         A_L1 = numpy.linalg.norm(A0, 1)
     ident = numpy.eye(A.shape[0])
-    if isinstance(A, algopy.Function) and A_L1 < 2.097847961257068e+000:
+    if (isinstance(A, algopy.Function) or (isinstance(A0, algopy.UTPM) and A0.data.shape[0] > 1)) \
+            and A_L1 < 2.097847961257068e+000:
         # a recorded graph is evaluated at other points too: the order must
-        # not depend on the value at which it is recorded
+        # not depend on the value at which it is recorded; and for a Taylor
+        # polynomial the [m/m] approximant reproduces the coefficients of exp
+        # only through degree 2m, whatever the norm: take the highest order
         U,V = _expm_pade13(A, ident)
     elif A_L1 < 1.495585217958292e-002:
         U,V = _expm_pade3(A, ident)
